@@ -460,8 +460,9 @@ class ISPHScheme(Scheme):
 
     def setup_properties(self, particles, clean=True):
         particle_arrays = dict([(p.name, p) for p in particles])
-        dummy = get_particle_array_isph(name='junk',
-                                        gid=particle_arrays['fluid'].gid)
+        dummy = get_particle_array_isph(
+            name='junk', gid=particle_arrays[self.fluids[0]].gid
+        )
         props = []
         for x, arr in dummy.properties.items():
             tmp = dict(name=x, type=arr.get_c_type())
